@@ -50,11 +50,14 @@ def cases(tier, rng):
             k += 1
     for nf in nfs:
         out.append(dict(id=f"c03-s{nf}", mode="splitting", nf=nf))
-    n = 24 if tier == "quick" else 1500
+    n = 24 if tier == "quick" else 6000
     for i in range(n):
         cfg = cards.rand_config(rng, ptos=(3,), sv=False)
         out.append(dict(id=f"c03-r{i}", mode="runner", kind=cards.pick(rng, cfg["kinds"]), heavy=cards.pick(rng, ["total", "light", "charm", "bottom"]),
                         point=dict(x=cards.logu(rng, 1e-3, 0.5), Q2=cards.logu(rng, 3, 1e5)), **cfg))  # fmt: skip
+    if tier == "thorough":
+        for c in out:
+            c["xs_extra"] = sorted(set([float(v) for v in rng.uniform(1e-3, 0.999, 5)] + [float(1 - 10 ** rng.uniform(-7, -2)), float(10 ** rng.uniform(-6, -3))]))
     return out
 
 
@@ -99,12 +102,15 @@ def is_explicit_rejection(e):
     return line.startswith("raise ") and len(str(e)) > 8
 
 
+XS_EXTRA = []  # per-case random x (thorough tier), set by run_case
+
+
 def check_rsl(rsl, label, viol, counters, ratio=None):
     """Returns (identity_checked, margin)."""
     a = rsl.args
     margin = 0.0
     # finiteness / type: evaluate the whole sample, report once per part with the kinematic region in the signature
-    for part, xs in (("reg", XS_FIN), ("sing", XS_FIN), ("loc", XS_FIN)):
+    for part, xs in (("reg", XS_FIN + XS_EXTRA), ("sing", XS_FIN + XS_EXTRA), ("loc", XS_FIN + XS_EXTRA)):
         f = getattr(rsl, part)
         if f is None:
             continue
@@ -138,7 +144,7 @@ def check_rsl(rsl, label, viol, counters, ratio=None):
         return True, margin
     try:
         l0 = rsl.loc(X0, a["loc"])
-        for x in XS_ID:
+        for x in sorted(XS_ID + XS_EXTRA):
             lx = rsl.loc(x, a["loc"])
             integ = quad.int_sing(rsl, X0, x)[0] if rsl.sing is not None else 0.0
             if not (np.isfinite(lx) and np.isfinite(integ) and np.isfinite(l0)):
@@ -167,6 +173,7 @@ def run_case(case):
     run.yad()
     from yadism.coefficient_functions import partonic_channel as pc
 
+    XS_EXTRA[:] = [float(v) for v in case.get("xs_extra", [])]
     created = []
     orig_init = pc.RSL.__init__
 
